@@ -1,8 +1,447 @@
 /-
-Helper lemmas for C14 (StatFold).
+Helper lemmas for C14 (StatFold): statistics as weighted sums over the flat positions, and the invariance of a
+weighted sum with a mirror-symmetric weight under folding with fill zero.
 -/
 import SfsModel.Model.Stat
 import SfsModel.Spec.Stat
+import SfsModel.Lemmas.Index
+import SfsModel.Lemmas.Fold
+import SfsModel.Lemmas.View
+import Mathlib.Algebra.Field.Basic
+import Mathlib.Algebra.CharZero.Defs
+import Mathlib.Algebra.BigOperators.Group.Finset.Basic
+import Mathlib.Algebra.BigOperators.Group.List.Basic
+import Mathlib.Algebra.BigOperators.Intervals
+import Mathlib.Algebra.BigOperators.Ring.Finset
+import Mathlib.Tactic.Ring
+import Mathlib.Tactic.FieldSimp
+import Mathlib.Tactic.Linarith
 namespace Sfs
+open Finset
+
+/-! ### weighted sums over the flat positions -/
+
+/-- `Σ_{i<n} d_i · W i` -/
+def sf_wsum {α} [Field α] (n : Nat) (d : List α) (W : Nat → α) : α :=
+  ∑ i ∈ range n, d.getD i 0 * W i
+
+/-- interior indicator: the weight `w` on the cells `0 < i < n - 1`, zero on the first and last cell -/
+def sf_int {α} [Field α] (n : Nat) (w : Nat → α) (i : Nat) : α :=
+  if 0 < i ∧ i + 1 < n then w i else 0
+
+theorem sf_foldZero_data {α} [Field α] [CharZero α] (a : Arr α) :
+    (Spec.foldZero a).data = foldSpectrum (1/2 : α) 0 a.shape a.data := by
+  simp only [Spec.foldZero, Nat.cast_ofNat]
+
+theorem sf_foldZero_shape {α} [Field α] [CharZero α] (a : Arr α) :
+    (Spec.foldZero a).shape = a.shape := rfl
+
+theorem sf_foldZero_length {α} [Field α] [CharZero α] (a : Arr α) :
+    (Spec.foldZero a).data.length = size a.shape := by
+  rw [sf_foldZero_data, foldSpectrum_length]
+
+/-- The general invariance: a mirror-symmetric weight does not see the fold. -/
+theorem sf_fold_weighted {α} [Field α] [CharZero α] (shape : List Nat) (x : List α) (W : Nat → α)
+    (hW : ∀ i, i < size shape → W (size shape - 1 - i) = W i) :
+    sf_wsum (size shape) (foldSpectrum (1/2 : α) 0 shape x) W = sf_wsum (size shape) x W := by
+  unfold sf_wsum
+  rw [← fold_mass_range shape (fun i => x.getD i 0 * W i)]
+  apply Finset.sum_congr rfl
+  intro i hi
+  have hi' : i < size shape := Finset.mem_range.mp hi
+  rw [foldSpectrum_getD _ _ _ _ i hi', foldCell_cw, hW i hi']
+  ring
+
+theorem sf_foldZero_weighted {α} [Field α] [CharZero α] (a : Arr α) (W : Nat → α)
+    (hW : ∀ i, i < size a.shape → W (size a.shape - 1 - i) = W i) :
+    sf_wsum (size a.shape) (Spec.foldZero a).data W = sf_wsum (size a.shape) a.data W := by
+  rw [sf_foldZero_data]; exact sf_fold_weighted a.shape a.data W hW
+
+theorem sf_int_symm {α} [Field α] (n : Nat) (w : Nat → α)
+    (hw : ∀ i, 0 < i → i + 1 < n → w (n - 1 - i) = w i) (i : Nat) (hi : i < n) :
+    sf_int n w (n - 1 - i) = sf_int n w i := by
+  unfold sf_int
+  by_cases h : 0 < i ∧ i + 1 < n
+  · have h' : 0 < n - 1 - i ∧ n - 1 - i + 1 < n := by omega
+    rw [if_pos h, if_pos h', hw i h.1 h.2]
+  · have h' : ¬ (0 < n - 1 - i ∧ n - 1 - i + 1 < n) := by omega
+    rw [if_neg h, if_neg h']
+
+theorem sf_wsum_normalize {α} [Field α] (n : Nat) (x : List α) (W : Nat → α) :
+    sf_wsum n (normalize x) W = sf_wsum n x W / sumList x := by
+  unfold sf_wsum
+  rw [div_eq_mul_inv, Finset.sum_mul, sumList_eq_sum]
+  apply Finset.sum_congr rfl
+  intro i _
+  rw [normalize_getD]; ring
+
+/-! ### interior of a list, sums over it -/
+
+theorem sf_interior_range {β} (g : Nat → β) (n : Nat) :
+    interior ((List.range n).map g) = (List.range (n - 2)).map (fun i => g (i + 1)) := by
+  unfold interior
+  apply List.ext_getElem
+  · simp; omega
+  · intro i h1 h2
+    simp
+
+theorem sf_withIdx_eq {β} (d : β) (l : List β) :
+    withIdx l = (List.range l.length).map (fun i => (i, l.getD i d)) := by
+  unfold withIdx
+  apply List.ext_getElem
+  · simp
+  · intro i h1 h2
+    simp at h1
+    simp [List.getD_eq_getElem?_getD, List.getElem?_eq_getElem h1]
+
+theorem sf_sum_shift {α} [Field α] (n : Nat) (h : Nat → α) :
+    ∑ i ∈ range (n - 2), h (i + 1) = ∑ i ∈ range n, sf_int n h i := by
+  rcases n with _ | _ | m
+  · simp
+  · simp [sf_int]
+  · rw [Finset.sum_range_succ, Finset.sum_range_succ']
+    have e0 : sf_int (m + 2) h 0 = 0 := by simp [sf_int]
+    have e1 : sf_int (m + 2) h (m + 1) = 0 := by simp [sf_int]
+    rw [e0, e1, add_zero, add_zero]
+    apply Finset.sum_congr rfl
+    intro i hi
+    have : i < m := Finset.mem_range.mp hi
+    have hc : 0 < i + 1 ∧ i + 1 + 1 < m + 2 := by omega
+    simp only [sf_int, if_pos hc]
+
+/-- Sum over the interior of an indexed list as a weighted sum. -/
+theorem sf_interior_withIdx_sum {α} [Field α] (x : List α) (f : Nat × α → α) :
+    sumList ((interior (withIdx x)).map f)
+      = ∑ i ∈ range x.length, sf_int x.length (fun i => f (i, x.getD i 0)) i := by
+  rw [sumList_eq_sum, sf_withIdx_eq 0 x, sf_interior_range, List.map_map, fold_list_range_sum,
+    ← sf_sum_shift]
+  rfl
+
+theorem sf_interior_sum {α} [Field α] (x : List α) :
+    sumList (interior x) = ∑ i ∈ range x.length, sf_int x.length (fun i => x.getD i 0) i := by
+  rw [sumList_eq_sum]
+  conv_lhs => rw [list_eq_map_getD 0 x]
+  rw [sf_interior_range, fold_list_range_sum, ← sf_sum_shift]
+
+theorem sf_int_mul {α} [Field α] (n : Nat) (x w : Nat → α) (i : Nat) :
+    sf_int n (fun i => x i * w i) i = x i * sf_int n w i := by
+  unfold sf_int; split <;> simp
+
+/-! ### S, pi, theta, Tajima's D -/
+
+section
+variable {α : Type} [Field α] [CharZero α]
+open Spec
+
+theorem sf_segregating_eq (x : List α) :
+    segregating x = sf_wsum x.length x (sf_int x.length (fun _ => 1)) := by
+  unfold segregating sf_wsum
+  rw [sf_interior_sum]
+  apply Finset.sum_congr rfl
+  intro i _
+  unfold sf_int; split <;> simp
+
+theorem sf_thetaEstimate_eq (w : Nat → Nat → α) (x : List α) :
+    thetaEstimate w x = sf_wsum x.length x (sf_int x.length (fun i => w i (x.length - 1))) := by
+  unfold thetaEstimate sf_wsum
+  simp only []
+  rw [sf_interior_withIdx_sum]
+  apply Finset.sum_congr rfl
+  intro i _
+  unfold sf_int; split
+  · ring
+  · simp
+
+theorem sf_foldZero_int (a : Arr α) (hlen : a.data.length = size a.shape) (w : Nat → α)
+    (hw : ∀ i, 0 < i → i + 1 < size a.shape → w (size a.shape - 1 - i) = w i) :
+    sf_wsum (foldZero a).data.length (foldZero a).data (sf_int (foldZero a).data.length w)
+      = sf_wsum a.data.length a.data (sf_int a.data.length w) := by
+  rw [sf_foldZero_length, hlen]
+  exact sf_foldZero_weighted a _ (sf_int_symm _ w hw)
+
+theorem sf_fold_segregating (a : Arr α) (hlen : a.data.length = size a.shape) :
+    segregating (foldZero a).data = segregating a.data := by
+  rw [sf_segregating_eq, sf_segregating_eq]
+  exact sf_foldZero_int a hlen _ (fun _ _ _ => rfl)
+
+theorem sf_fold_thetaEstimate (w : Nat → Nat → α) (a : Arr α) (hlen : a.data.length = size a.shape)
+    (hw : ∀ i, 0 < i → i + 1 < size a.shape →
+      w (size a.shape - 1 - i) (size a.shape - 1) = w i (size a.shape - 1)) :
+    thetaEstimate w (foldZero a).data = thetaEstimate w a.data := by
+  rw [sf_thetaEstimate_eq, sf_thetaEstimate_eq]
+  have e : (foldZero a).data.length = a.data.length := by rw [sf_foldZero_length, hlen]
+  rw [show (fun i => w i ((foldZero a).data.length - 1)) = (fun i => w i (a.data.length - 1)) by rw [e]]
+  apply sf_foldZero_int a hlen
+  rw [hlen]; exact hw
+
+theorem sf_fold_pi (a : Arr α) (hlen : a.data.length = size a.shape) :
+    statPi (foldZero a).data = statPi a.data := by
+  unfold statPi
+  apply sf_fold_thetaEstimate _ a hlen
+  intro i h0 h1
+  unfold tajimaWeight
+  have e : (size a.shape - 1 - i) * (size a.shape - 1 - (size a.shape - 1 - i))
+      = i * (size a.shape - 1 - i) := by
+    have : size a.shape - 1 - (size a.shape - 1 - i) = i := by omega
+    rw [this, Nat.mul_comm]
+  rw [e]
+
+theorem sf_fold_theta (a : Arr α) (hlen : a.data.length = size a.shape) :
+    statTheta (foldZero a).data = statTheta a.data := by
+  unfold statTheta
+  apply sf_fold_thetaEstimate _ a hlen
+  intro i _ _
+  rfl
+
+theorem sf_dTajima_congr (x y : List α) (hl : x.length = y.length) (hs : segregating x = segregating y)
+    (hp : statPi x = statPi y) (ht : statTheta x = statTheta y) : dTajima x = dTajima y := by
+  unfold dTajima
+  rw [hl, hs, hp, ht]
+
+theorem sf_fold_dTajima (a : Arr α) (hlen : a.data.length = size a.shape) :
+    dTajima (foldZero a).data = dTajima a.data :=
+  sf_dTajima_congr _ _ (by rw [sf_foldZero_length, hlen]) (sf_fold_segregating a hlen)
+    (sf_fold_pi a hlen) (sf_fold_theta a hlen)
+
+/-! ### the mirror partner of a flat position, per-axis frequencies -/
+
+theorem sf_unflat_rev (s : List Nat) (i : Nat) (h : i < size s) :
+    unflat s (size s - 1 - i) = mirror s (unflat s i) := by
+  have hb := unflat_inB s i h
+  rw [rev_eq_flat_mirror s i h, unflat_flat s _ (mirror_inB s _ hb)]
+
+theorem sf_indexFromFlat_eq (s : List Nat) (i : Nat) (h : i < size s) : indexFromFlat s i = unflat s i :=
+  unflatLoop_eq s i h
+
+/-- frequencies of a multi-index -/
+def sf_fr (k s : List Nat) : List α :=
+  (List.zip k s).map (fun p => ((p.1 : Nat) : α) / ((p.2 - 1 : Nat) : α))
+
+theorem sf_freqs_eq (s : List Nat) (i : Nat) (h : i < size s) :
+    freqs (α := α) s i = sf_fr (unflat s i) s := by
+  unfold freqs sf_fr
+  rw [sf_indexFromFlat_eq s i h]
+
+theorem sf_fr_mirror : ∀ (s k : List Nat), InB s k → (∀ v ∈ s, 2 ≤ v) → ∀ j, j < s.length →
+    nth (sf_fr (α := α) (mirror s k) s) j = 1 - nth (sf_fr (α := α) k s) j
+  | [], [], _, _, j, hj => by simp at hj
+  | v :: s, i :: k, hb, hv, 0, _ => by
+    have hi : i < v := hb.1
+    have h2 : 2 ≤ v := hv v (by simp)
+    have hne : ((v - 1 : Nat) : α) ≠ 0 := Nat.cast_ne_zero.mpr (by omega)
+    simp only [mirror, sf_fr, List.zip_cons_cons, List.map_cons, nth, List.getD_cons_zero]
+    rw [show v - 1 - i = (v - 1) - i from rfl, Nat.cast_sub (by omega : i ≤ v - 1)]
+    field_simp
+  | v :: s, i :: k, hb, hv, j + 1, hj => by
+    have ih := sf_fr_mirror s k hb.2 (fun w hw => hv w (by simp [hw])) j (by simpa using hj)
+    simpa only [mirror, sf_fr, List.zip_cons_cons, List.map_cons, nth, List.getD_cons_succ] using ih
+  | [], _ :: _, hb, _, _, _ => by simp [InB] at hb
+  | _ :: _, [], hb, _, _, _ => by simp [InB] at hb
+
+/-- mirroring the cell sends every frequency `f_j` to `1 - f_j` -/
+theorem sf_freqs_rev (s : List Nat) (hv : ∀ v ∈ s, 2 ≤ v) (i : Nat) (h : i < size s) (j : Nat)
+    (hj : j < s.length) :
+    nth (freqs (α := α) s (size s - 1 - i)) j = 1 - nth (freqs (α := α) s i) j := by
+  rw [sf_freqs_eq s _ (by omega), sf_freqs_eq s i h, sf_unflat_rev s i h]
+  exact sf_fr_mirror s _ (unflat_inB s i h) hv j hj
+
+/-! ### f2, f3, f4 -/
+
+theorem sf_freqSum_eq (w : List α → α) (a : Arr α) :
+    freqSum w a = sf_wsum a.data.length a.data (fun i => w (freqs a.shape i)) := by
+  unfold freqSum sf_wsum
+  rw [sumList_eq_sum, sf_withIdx_eq 0 a.data, List.map_map, fold_list_range_sum]
+  rfl
+
+theorem sf_freqSum_normalized (w : List α → α) (a : Arr α) :
+    freqSum w (normalized a) = freqSum w a / sumList a.data := by
+  rw [sf_freqSum_eq, sf_freqSum_eq]
+  show sf_wsum (normalize a.data).length (normalize a.data) _ = _
+  rw [normalize_length, sf_wsum_normalize]
+  rfl
+
+theorem sf_fold_sumList (a : Arr α) (hlen : a.data.length = size a.shape) :
+    sumList (foldZero a).data = sumList a.data := by
+  rw [sumList_eq_sum, sumList_eq_sum, sf_foldZero_data, foldSpectrum_mass a.shape a.data hlen]
+
+theorem sf_fold_freqSum (w : List α → α) (a : Arr α) (hlen : a.data.length = size a.shape)
+    (hw : ∀ i, i < size a.shape → w (freqs a.shape (size a.shape - 1 - i)) = w (freqs a.shape i)) :
+    freqSum w (normalized (foldZero a)) = freqSum w (normalized a) := by
+  rw [sf_freqSum_normalized, sf_freqSum_normalized, sf_fold_sumList a hlen, sf_freqSum_eq, sf_freqSum_eq,
+    sf_foldZero_length, sf_foldZero_shape, hlen, sf_foldZero_weighted a _ hw]
+
+theorem sf_fold_f2 (a : Arr α) (hlen : a.data.length = size a.shape) (hv : ∀ v ∈ a.shape, 2 ≤ v)
+    (h2 : a.shape.length = 2) : statF2 (normalized (foldZero a)) = statF2 (normalized a) := by
+  unfold statF2
+  apply sf_fold_freqSum _ a hlen
+  intro i hi
+  rw [sf_freqs_rev a.shape hv i hi 0 (by omega), sf_freqs_rev a.shape hv i hi 1 (by omega)]
+  ring
+
+theorem sf_fold_f3 (a : Arr α) (hlen : a.data.length = size a.shape) (hv : ∀ v ∈ a.shape, 2 ≤ v)
+    (h3 : a.shape.length = 3) : statF3 (normalized (foldZero a)) = statF3 (normalized a) := by
+  unfold statF3
+  apply sf_fold_freqSum _ a hlen
+  intro i hi
+  rw [sf_freqs_rev a.shape hv i hi 0 (by omega), sf_freqs_rev a.shape hv i hi 1 (by omega),
+    sf_freqs_rev a.shape hv i hi 2 (by omega)]
+  ring
+
+theorem sf_fold_f4 (a : Arr α) (hlen : a.data.length = size a.shape) (hv : ∀ v ∈ a.shape, 2 ≤ v)
+    (h4 : a.shape.length = 4) : statF4 (normalized (foldZero a)) = statF4 (normalized a) := by
+  unfold statF4
+  apply sf_fold_freqSum _ a hlen
+  intro i hi
+  rw [sf_freqs_rev a.shape hv i hi 0 (by omega), sf_freqs_rev a.shape hv i hi 1 (by omega),
+    sf_freqs_rev a.shape hv i hi 2 (by omega), sf_freqs_rev a.shape hv i hi 3 (by omega)]
+  ring
+
+/-! ### Fst -/
+
+theorem sf_foldl_pair {β : Type} (A B : β → α) : ∀ (l : List β) (z : α × α),
+    l.foldl (fun (acc : α × α) p => (acc.1 + A p, acc.2 + B p)) z
+      = (z.1 + (l.map A).sum, z.2 + (l.map B).sum)
+  | [], z => by simp
+  | p :: l, z => by
+    rw [List.foldl_cons, sf_foldl_pair A B l]
+    simp [add_assoc]
+
+/-- per-cell weight of the numerator of Hudson's Fst -/
+def sf_fstNum (shape : List Nat) (i : Nat) : α :=
+  (nth (freqs (α := α) shape i) 0 - nth (freqs (α := α) shape i) 1)
+      * (nth (freqs (α := α) shape i) 0 - nth (freqs (α := α) shape i) 1)
+    - nth (freqs (α := α) shape i) 0 * (1 - nth (freqs (α := α) shape i) 0)
+        / (((shape.getD 0 0 : Nat) : α) - ((2 : Nat) : α))
+    - nth (freqs (α := α) shape i) 1 * (1 - nth (freqs (α := α) shape i) 1)
+        / (((shape.getD 1 0 : Nat) : α) - ((2 : Nat) : α))
+
+/-- per-cell weight of the denominator of Hudson's Fst -/
+def sf_fstDen (shape : List Nat) (i : Nat) : α :=
+  nth (freqs (α := α) shape i) 0 * (1 - nth (freqs (α := α) shape i) 1)
+    + nth (freqs (α := α) shape i) 1 * (1 - nth (freqs (α := α) shape i) 0)
+
+theorem sf_fstParts_eq (a : Arr α) :
+    fstParts a = (sf_wsum a.data.length a.data (sf_int a.data.length (sf_fstNum a.shape)),
+                  sf_wsum a.data.length a.data (sf_int a.data.length (sf_fstDen a.shape))) := by
+  unfold fstParts
+  simp only []
+  refine Eq.trans (sf_foldl_pair (fun p : Nat × α => p.2 * sf_fstNum a.shape p.1)
+    (fun p : Nat × α => p.2 * sf_fstDen a.shape p.1) _ _) ?_
+  rw [← sumList_eq_sum, ← sumList_eq_sum, sf_interior_withIdx_sum, sf_interior_withIdx_sum]
+  simp only [zero_add, sf_wsum, sf_int_mul]
+
+theorem sf_fstParts_normalized (a : Arr α) :
+    fstParts (normalized a)
+      = (sf_wsum a.data.length a.data (sf_int a.data.length (sf_fstNum a.shape)) / sumList a.data,
+         sf_wsum a.data.length a.data (sf_int a.data.length (sf_fstDen a.shape)) / sumList a.data) := by
+  rw [sf_fstParts_eq]
+  show (sf_wsum (normalize a.data).length (normalize a.data)
+      (sf_int (normalize a.data).length (sf_fstNum a.shape)),
+    sf_wsum (normalize a.data).length (normalize a.data)
+      (sf_int (normalize a.data).length (sf_fstDen a.shape))) = _
+  rw [normalize_length, sf_wsum_normalize, sf_wsum_normalize]
+
+theorem sf_fstNum_rev (s : List Nat) (hv : ∀ v ∈ s, 2 ≤ v) (h2 : s.length = 2) (i : Nat)
+    (h : i < size s) : sf_fstNum (α := α) s (size s - 1 - i) = sf_fstNum s i := by
+  unfold sf_fstNum
+  rw [sf_freqs_rev s hv i h 0 (by omega), sf_freqs_rev s hv i h 1 (by omega)]
+  ring
+
+theorem sf_fstDen_rev (s : List Nat) (hv : ∀ v ∈ s, 2 ≤ v) (h2 : s.length = 2) (i : Nat)
+    (h : i < size s) : sf_fstDen (α := α) s (size s - 1 - i) = sf_fstDen s i := by
+  unfold sf_fstDen
+  rw [sf_freqs_rev s hv i h 0 (by omega), sf_freqs_rev s hv i h 1 (by omega)]
+  ring
+
+theorem sf_fold_fstParts (a : Arr α) (hlen : a.data.length = size a.shape) (hv : ∀ v ∈ a.shape, 2 ≤ v)
+    (h2 : a.shape.length = 2) : fstParts (normalized (foldZero a)) = fstParts (normalized a) := by
+  rw [sf_fstParts_normalized, sf_fstParts_normalized, sf_fold_sumList a hlen, sf_foldZero_shape,
+    sf_foldZero_int a hlen _ (fun i _ h1 => sf_fstNum_rev a.shape hv h2 i (by omega)),
+    sf_foldZero_int a hlen _ (fun i _ h1 => sf_fstDen_rev a.shape hv h2 i (by omega))]
+
+theorem sf_fold_fst (a : Arr α) (hlen : a.data.length = size a.shape) (hv : ∀ v ∈ a.shape, 2 ≤ v)
+    (h2 : a.shape.length = 2) : statFst (normalized (foldZero a)) = statFst (normalized a) := by
+  unfold statFst
+  rw [sf_fold_fstParts a hlen hv h2]
+
+/-! ### pi_xy -/
+
+theorem sf_cells_eq (r c : Nat) (hc : 0 < c) :
+    (List.range r).flatMap (fun m1 => (List.range c).map (fun m2 => (m1, m2)))
+      = (List.range (r * c)).map (fun i => (i / c, i % c)) := by
+  induction r with
+  | zero => simp
+  | succ r ih =>
+    rw [List.range_succ, List.flatMap_append, ih, Nat.succ_mul, List.range_add, List.map_append]
+    congr 1
+    simp only [List.flatMap_cons, List.flatMap_nil, List.append_nil, List.map_map]
+    apply List.map_congr_left
+    intro j hj
+    have hj' : j < c := List.mem_range.mp hj
+    simp [Nat.mul_comm r c, Nat.mul_add_div hc, Nat.div_eq_of_lt hj', Nat.mul_add_mod,
+      Nat.mod_eq_of_lt hj']
+
+theorem sf_take_drop_range {β} (g : Nat → β) (n : Nat) :
+    (((List.range n).map g).take (n - 1)).drop 1 = (List.range (n - 2)).map (fun i => g (i + 1)) := by
+  have h := sf_interior_range g n
+  unfold interior at h
+  simpa using h
+
+/-- per-cell weight of pi_xy on the flat position of a `[r, c]` spectrum -/
+def sf_pixyW (r c i : Nat) : α := (((i / c) * (c - 1 - i % c) + (i % c) * (r - 1 - i / c) : Nat) : α)
+
+theorem sf_statPiXY_eq (a : Arr α) (r c : Nat) (hs : a.shape = [r, c]) (hr : 0 < r) (hc : 0 < c)
+    (hlen : a.data.length = r * c) :
+    statPiXY a
+      = sf_wsum (r * c) a.data (sf_int (r * c) (sf_pixyW r c)) / (((r - 1) * (c - 1) : Nat) : α) := by
+  unfold statPiXY
+  simp only [hs, List.getD_cons_zero, List.getD_cons_succ]
+  rw [Nat.sub_add_cancel hr, Nat.sub_add_cancel hc, sf_cells_eq r c hc, hlen, sf_take_drop_range,
+    List.map_map, sumList_eq_sum, fold_list_range_sum]
+  congr 1
+  unfold sf_wsum
+  simp only [← sf_int_mul]
+  rw [← sf_sum_shift]
+  apply Finset.sum_congr rfl
+  intro i _
+  simp only [Function.comp, nth, sf_pixyW, Nat.div_add_mod']
+
+theorem sf_pixyW_rev (r c : Nat) (i : Nat) (h : i < r * c) :
+    sf_pixyW (α := α) r c (r * c - 1 - i) = sf_pixyW r c i := by
+  have hsz : size [r, c] = r * c := by simp [size]
+  have hu := sf_unflat_rev [r, c] i (by rw [hsz]; exact h)
+  rw [hsz] at hu
+  simp only [unflat, size, mirror, Nat.mul_one, Nat.div_one, List.cons.injEq, and_true] at hu
+  obtain ⟨h1, h2⟩ := hu
+  have hb := unflat_inB [r, c] i (by rw [hsz]; exact h)
+  simp only [unflat, size, InB, Nat.mul_one, Nat.div_one, and_true] at hb
+  obtain ⟨b1, b2⟩ := hb
+  unfold sf_pixyW
+  rw [h1, h2]
+  congr 1
+  have e1 : c - 1 - (c - 1 - i % c) = i % c := by omega
+  have e2 : r - 1 - (r - 1 - i / c) = i / c := by omega
+  rw [e1, e2, Nat.mul_comm (r - 1 - i / c), Nat.mul_comm (c - 1 - i % c), Nat.add_comm]
+
+theorem sf_fold_pixy (a : Arr α) (hlen : a.data.length = size a.shape) (hv : ∀ v ∈ a.shape, 2 ≤ v)
+    (h2 : a.shape.length = 2) : statPiXY (foldZero a) = statPiXY a := by
+  obtain ⟨data, shape⟩ := a
+  simp only at hlen hv h2
+  match shape, h2 with
+  | [r, c], _ =>
+    have hr : 2 ≤ r := hv r (by simp)
+    have hc : 2 ≤ c := hv c (by simp)
+    have hsz : size [r, c] = r * c := by simp [size]
+    rw [sf_statPiXY_eq _ r c rfl (by omega) (by omega) (by rw [sf_foldZero_length, hsz]),
+      sf_statPiXY_eq _ r c rfl (by omega) (by omega) (by rw [hlen, hsz])]
+    congr 1
+    have := sf_foldZero_weighted (α := α) ⟨data, [r, c]⟩ (sf_int (r * c) (sf_pixyW r c))
+      (by
+        rw [hsz]
+        exact sf_int_symm _ _ (fun i _ h1 => sf_pixyW_rev r c i (by omega)))
+    rw [hsz] at this
+    exact this
+
+end
 
 end Sfs
